@@ -32,6 +32,10 @@ def run(prog, chk):
     degenerate_boxes(prog, chk)
     use_translation(prog, chk)
     clip_result_stored_whole(prog, chk)
+    from props import C16
+    C16.extent_accumulation(prog, chk)  # repeated bodies: every rendered pass is counted in the extent
+    transform_fold(prog, chk)
+    config_is_incremental(prog, chk)
     from props import geomalg
     geomalg.check_sites(prog, chk, "C08")
     geomalg.check(prog, chk, "C08", floor=27)
@@ -279,3 +283,56 @@ def clip_result_stored_whole(prog, chk):
                 elif ui == R.TERM and node.get("k") == "call" and "fn" in node and Callee(node["fn"]).path.split("::")[-1] in ("is_some", "is_none", "map", "and_then", "or", "unwrap_or", "filter"):
                     tested = True
         chk.ob(not tested, "A13.clip-none", "SvgElement:generate_events:intersect", b.where(bb, t.get("line")), "the clipped box is the result of intersect() as returned (None when element and clip path are disjoint)", "the result of intersect() is tested before it is stored: when element and clip path are disjoint the unclipped box is kept, so invisible content enlarges the root extent")
+
+
+def transform_fold(prog, chk):
+    """TransformAttr::apply maps the box through the transform list from the innermost (last) entry outwards, each entry
+    applied to the running result by xfrm_translate / xfrm_scale (whose algebra is checked separately)"""
+    b = prog.body("svgdx::transform_attr::TransformAttr::apply")
+    chk.touch(b)
+    nx = [(bb, t, c) for (bb, t, c) in b.call_sites(lambda c: c.decl_path == "std::iter::Iterator::next")]
+    rev = any("std::iter::Rev<" in (c.self_ty or "") for (_, _, c) in nx)
+    loops = b.loops
+    ok_calls = True
+    n = 0
+    for name in ("xfrm_translate", "xfrm_scale"):
+        cs = b.call_sites(lambda c, name=name: c.path.endswith("::" + name))
+        if not cs:
+            ok_calls = False
+        for (bb, t, c) in cs:
+            n += 1
+            in_loop = any(bb in blocks for blocks in loops.values())
+            recv = R.origin_local(b, t["args"][0])
+            # result = result.xfrm(..): the destination flows back into the receiver local
+            back = False
+            if recv is not None:
+                for (ub, ui, node, how) in R.uses_of(b, t["dest"][0]):
+                    if ui != R.TERM and "lhs" in node and node["lhs"][0] == recv and not node["lhs"][1]:
+                        back = True
+            ok_calls = ok_calls and in_loop and back
+    chk.floor("A13.transform-fold", n, 2, "xfrm_* call in TransformAttr::apply")
+    chk.ob(rev and ok_calls, "A13.transform-fold", "TransformAttr::apply", b.where(), "the box is folded through the transform list in reverse order, each translate/scale applied to the running result", f"TransformAttr::apply no longer folds the box through xfrm_translate/xfrm_scale in reverse list order (reverse iteration: {rev}, per-entry application to the running result: {ok_calls}): a translate that precedes a scale is scaled as well (or applied in the wrong order)")
+
+
+def config_is_incremental(prog, chk):
+    """<config> changes only what it mentions: the new configuration starts as a clone of the one in force (border and
+    scale given on the command line survive a <config> that sets something else)"""
+    b = prog.body("<svgdx::transform::ConfigElement as svgdx::transform::EventGen>::generate_events")
+    chk.touch(b)
+    sc = b.call_sites(R.path_endswith("TransformerContext::set_config"))
+    if len(sc) != 1:
+        chk.anchor_missing("A10.config-incremental", f"ConfigElement: expected one set_config call, found {len(sc)}")
+        return
+    bb, t, c = sc[0]
+    l = R.origin_local(b, t["args"][1])
+    ok = False
+    src = None
+    if l is not None:
+        for d in b.defs_of(l):
+            if d[1] == R.TERM and "fn" in d[2]:
+                cal = Callee(d[2]["fn"])
+                src = cal.path
+                if cal.decl_path == "std::clone::Clone::clone":
+                    o = R.origin(b, d[2]["args"][0], carriers={})
+                    ok = o[0] == "field" and o[1][1] and o[1][1][-1] == ".config"
+    chk.ob(ok, "A10.config-incremental", "ConfigElement", b.where(bb, t.get("line")), "the configuration handed to set_config is a clone of context.config with the mentioned keys replaced", f"the configuration built by <config> does not start from the configuration in force (it starts from {src}): settings it does not mention - border, scale ... - are reset, so the root extent/size no longer follow the given configuration")
